@@ -334,7 +334,8 @@ MANIFEST = dict(
           'scheduled request is granted on its first retry and exactly its share leaves the total; an unscheduled request '
           'is either admitted at once (only within the 1/alpha smoothing allowance) or refused with retry_time == sum of '
           'the shares now waiting including its own; the stream wrapper consumes once per threshold, raises the '
-          'transfer error instead of sleeping again and leaves no abandoned token scheduled.'),
+          'transfer error instead of sleeping again and leaves no abandoned token scheduled.'
+          ' Also: the tracked rate stays finite (non-finite floats are modelled; the clock may return equal readings).'),
     note=('Floats are reals (A-REAL); clock non-decreasing (A-CLOCK-MONOTONE: equal readings allowed -- that is how F20 was found); '
           'two finite-sum lemmas are background axioms; the windowed rate bound over long histories and fairness in virtual time are '
           'not decided by contracts. The clauses "admitted only within the allowance" / "refused only when the projected rate exceeds '
